@@ -21,6 +21,10 @@ class SimFault(Exception):
     """Injected processor/executor exception; identity is checked at the caller."""
 
 
+class SimKeyError(KeyError):
+    """Injected domain error derived from KeyError, raised WITHOUT arguments."""
+
+
 class SimAbort(BaseException):
     """Injected KeyboardInterrupt-class abort."""
 
@@ -194,7 +198,15 @@ class SimWorld:
         self.faults_fired.append({"site": site, "kind": kind, "node": self.cur_node, "run": self.cur_run})
         self.log("fault", site, kind, self.cur_node, self.cur_run)
         if kind == "exception":
-            exc = SimFault(f"injected fault at node {self.cur_node} site {site}")
+            variant = f.get("exc", "simfault")
+            if variant == "bare_keyerror":
+                exc = KeyError()
+            elif variant == "keyerror_subclass":
+                exc = SimKeyError()
+            elif variant == "nonstr_args":
+                exc = ValueError(("injected", self.cur_node, 1.5))
+            else:
+                exc = SimFault(f"injected fault at node {self.cur_node} site {site}")
             self.last_injected = exc
             raise exc
         if kind == "abort":
